@@ -218,9 +218,14 @@ jumbo_fill(uint8_t *buf, uint32_t size, uint32_t seed, uint64_t uid)
 static uint64_t
 parse_clock(const char *s)
 {
-	if (strcmp(s, "now") == 0)
-		return ovni_clock_now();
-	return strtoull(s, NULL, 10);
+	/* "same": the clock value this thread used last (one clock read shared by
+	 * two events) */
+	static _Thread_local uint64_t last;
+	if (strcmp(s, "same") == 0 && last != 0)
+		return last;
+	if (strcmp(s, "now") == 0 || strcmp(s, "same") == 0)
+		return last = ovni_clock_now();
+	return last = strtoull(s, NULL, 10);
 }
 
 static void
